@@ -12,6 +12,8 @@
 # The harness conventions (harness/c03_prog.h): entry signatures 'ii' 'i8' 'd9i' 'mix' 'va' ; externals
 # ext_log ext_cb ext_cbd ext_d2 ext_va ; bss items mem<k> are hashed as "memory".
 
+import random, zlib
+
 INT_T = ['i64', 'i32', 'u8', 'i16', 'u32', 'i8', 'u16', 'p']
 ENTRY_SIGS = {
     'ii': (['i64', 'i64'], ['i64']),
@@ -33,6 +35,8 @@ class Func:
     def __init__(self, name, module, rank, args, rets, kind, vararg=False):
         self.name, self.module, self.rank = name, module, rank
         self.args, self.rets, self.kind, self.vararg = args, rets, kind, vararg
+        self.island = False   # lives in the unrelated ("island") module of a mixed-link program
+        self.ngate = 0
         self.fuel = False
         self.cost = 1
         self.body = []
@@ -43,11 +47,22 @@ class Func:
 
 
 class Gen:
-    def __init__(self, rng, nmodules=None, nfuncs=None, size=None, feats=None):
+    def __init__(self, rng, nmodules=None, nfuncs=None, size=None, feats=None, mixed=False):
         self.rng = rng
-        self.nmod = nmodules or rng.choice([1, 2, 2, 3, 3])
-        self.nfuncs = nfuncs or rng.randint(4, 9)
-        self.size = size or rng.choice([6, 10, 16])
+        # mixed: programs for histories that mix interfaces ACROSS link steps (gen_mixed_history): always layered,
+        # an entry ('ii') function in every module (so each module can be executed as soon as it is linked), calls of
+        # an entry gated by the bits of its second argument (the history decides which callees get their first call
+        # when), and one more module ("island") that is unrelated to the others and can be linked at any moment
+        self.mixed = mixed
+        if mixed:
+            self.nmod = nmodules or rng.choice([1, 2, 2, 3])
+            self.nfuncs = nfuncs or rng.randint(4, 9)
+            self.size = size or rng.choice([6, 10, 10, 16])
+        else:
+            self.nmod = nmodules or rng.choice([1, 2, 2, 3, 3])
+            self.nfuncs = nfuncs or rng.randint(4, 9)
+            self.size = size or rng.choice([6, 10, 16])
+        self.island_mod = None
         self.feats = set()
         self.funcs = []
         self.lab = 0
@@ -69,7 +84,16 @@ class Gen:
         while len(kinds) < self.nfuncs - 2:
             kinds.append('int')
         kinds += ['cbi', 'cbd']
-        self.layered = rng.random() < 0.6
+        self.layered = True if self.mixed else rng.random() < 0.6
+        if self.mixed:
+            # the lowest-ranked function of every module (it may call everything else of its module and of the
+            # modules below) is an entry
+            first = {}
+            for rank in range(len(kinds)):
+                first.setdefault((len(kinds) - 1 - rank) * self.nmod // len(kinds), rank)
+            for m, rank in first.items():
+                if kinds[rank] == 'int':
+                    kinds[rank] = 'ii'
         for rank, k in enumerate(kinds):
             if self.layered:   # callees live in modules loaded earlier: module index falls with rank
                 m = (len(kinds) - 1 - rank) * self.nmod // len(kinds)
@@ -87,6 +111,20 @@ class Gen:
                     f.args.insert(0, 'i64')
                     f.fuel = True
             self.funcs.append(f)
+        if self.mixed:
+            # the island: an entry, one or two callees, a callback target; nothing in common with the other modules
+            self.island_mod = self.nmod
+            base = len(kinds)
+            ik = ['ii'] + ['int'] * rng.randint(1, 2) + ['cbi']
+            for j, k in enumerate(ik):
+                if k in ENTRY_SIGS:
+                    a, r = ENTRY_SIGS[k]
+                    f = Func('f%d_%s' % (base + j, k), self.island_mod, base + j, list(a), list(r), k)
+                else:
+                    a = [rng.choice(['i64', 'i64', 'd', 'i32', 'u8']) for _ in range(rng.choice([1, 2, 3, 7]))]
+                    f = Func('f%d' % (base + j), self.island_mod, base + j, a, list(rng.choice(RET_CHOICES)), 'int')
+                f.island = True
+                self.funcs.append(f)
 
     def newlab(self, f):
         self.lab += 1
@@ -175,6 +213,11 @@ class Gen:
             e('%s:' % le)
             e('va_end va')
         out += self.stmts(f, self.size, 0)
+        if self.mixed and f.kind == 'ii':
+            # an entry of a mixed-link program has a few (gated) calls for sure
+            for _ in range(rng.randint(1, 3)):
+                out += self.call(f, 0, 1)
+                out += self.stmts(f, 1, 0)
         # result: fold everything observable into the return values
         for r in f.ir[1:]:
             e('mul r0, r0, 31')
@@ -362,7 +405,7 @@ class Gen:
     def callback(self, f, a, b):
         """C code re-entering MIR: ext_cb (fn, x) calls fn (x) where fn is a MIR function address"""
         rng = self.rng
-        cbs = [g for g in self.funcs if g.rank > f.rank and g.kind in ('cbi', 'cbd')]
+        cbs = [g for g in self.funcs if g.rank > f.rank and g.kind in ('cbi', 'cbd') and g.island == f.island]
         if not cbs or not self.ok('callback'):
             return ['call p_log, ext_log, %s, %s' % (a, b)]
         g = rng.choice(cbs)
@@ -378,7 +421,7 @@ class Gen:
         """a function address is one value however and whenever it is obtained: as a ref operand, from a `ref` data
         table, in another module through an import, in the C host through item->addr"""
         rng = self.rng
-        cands = [g for g in self.funcs if g.rank >= f.rank]
+        cands = [g for g in self.funcs if g.rank >= f.rank and g.island == f.island]
         g = rng.choice(cands)
         self.feats.add('faddr')
         self.use(f, g)
@@ -409,7 +452,7 @@ class Gen:
 
     def call(self, f, depth, inloop):
         rng = self.rng
-        cands = [g for g in self.funcs if g.rank > f.rank]
+        cands = [g for g in self.funcs if g.rank > f.rank and g.island == f.island]
         selfrec = f.fuel and inloop == 1 and rng.random() < 0.3 and not getattr(f, 'didrec', False)
         if selfrec:
             g = f
@@ -449,6 +492,8 @@ class Gen:
         how = rng.random()
         callee = g.name
         op = 'call'
+        if self.mixed and f.kind == 'ii' and g.module == f.module:
+            how = 0.2 + 0.8 * how   # mostly direct (or inline) when it stays inside the module
         if g is f:
             pass
         elif how < 0.2 and self.ok('indirect'):
@@ -473,6 +518,13 @@ class Gen:
             lines = ['ble %s, a0, 0' % lb] + pre + [call, '%s:' % lb]
         else:
             lines.append(call)
+            if self.mixed and f.kind == 'ii' and rng.random() < 0.85:
+                # gated by a bit of the entry's second argument: whether (and so when for the first time) the
+                # callee is reached is the caller's choice
+                lb = self.newlab(f)
+                lines = ['and t0, a1, %d' % (1 << (f.ngate % 6)), 'bf %s, t0' % lb] + lines + ['%s:' % lb]
+                f.ngate += 1
+                self.feats.add('gated')
         return lines
 
     # ------------------------------------------------------------ text
@@ -491,7 +543,8 @@ class Gen:
                 f.cost *= 4
         txt = []
         byname = {f.name: f for f in self.funcs}
-        for m in range(self.nmod):
+        orng = random.Random(zlib.crc32('|'.join(f.name + ':' + ';'.join(f.body) for f in self.funcs).encode()))
+        for m in range(self.nmod + (1 if self.island_mod is not None else 0)):
             mf = [f for f in self.funcs if f.module == m]
             txt.append('m%d: module' % m)
             used = set()
@@ -519,7 +572,17 @@ class Gen:
                 g = byname[u]
                 txt.append(self.proto_text('p_' + g.name, g.args, g.rets, g.vararg))
             txt.append('mem%d: bss 512' % m)
-            for f in mf:
+            # Definition order inside the module: a call of a function defined EARLIER refers to the func item itself
+            # (such call sites are recorded by the x86-64 generator and rewritten into direct calls when an eager link
+            # finishes), a call of a function defined later goes through its forward item.  The order is drawn from a
+            # generator of its own, seeded by the bodies, so the programs of a seed stay the same up to this order.
+            k = orng.random()
+            mdef = list(mf)
+            if k < 0.4:
+                mdef.reverse()
+            elif k < 0.7:
+                orng.shuffle(mdef)
+            for f in mdef:
                 hdr = list(f.rets) + ['%s:a%d' % (t, i) for i, t in enumerate(f.args)]
                 if f.vararg:
                     hdr.append('...')
@@ -558,9 +621,10 @@ def gen_program(rng, feats=None, **kw):
         if cost <= 20000:
             break
     funcs = [dict(name=f.name, module=f.module, kind=f.kind, rank=f.rank, nargs=len(f.args),
-                  uses=sorted(getattr(f, 'uses', set())), lref=bool(f.lrefs)) for f in g.funcs]
+                  uses=sorted(getattr(f, 'uses', set())), lref=bool(f.lrefs), ngate=f.ngate) for f in g.funcs]
     entries = [f for f in funcs if f['kind'] in ENTRY_SIGS]
-    return dict(text=text, nmodules=g.nmod, layered=g.layered, funcs=funcs, entries=entries, features=sorted(g.feats), cost=cost)
+    return dict(text=text, nmodules=g.nmod + (1 if g.island_mod is not None else 0), layered=g.layered, funcs=funcs, entries=entries,
+                features=sorted(g.feats), cost=cost, island=g.island_mod)
 
 
 def gen_call(rng, ent):
@@ -585,6 +649,107 @@ def gen_call(rng, ent):
     else:
         a = [dv()]
     return 'call %s %s %s' % (ent['name'], k, ' '.join(str(x) for x in a))
+
+
+def gate_call(rng, ent, gate):
+    """a call of entry ent; for an 'ii' entry of a mixed program the second argument is the gate mask"""
+    c = gen_call(rng, ent)
+    if ent['kind'] == 'ii' and gate is not None:
+        w = c.split()
+        w[4] = str(gate)
+        c = ' '.join(w)
+    return c
+
+
+def gen_mixed_history(rng, prog, ifaces=('interp', 'lazy', 'bb', 'gen'), explicit_gen=True):
+    """A history that mixes execution interfaces ACROSS link steps of one context, for a program of
+    gen_program (mixed=True):   link m_a with one interface -- run part of it (entries called with few gates open, so
+    that only some functions get their first call / their machine code) -- link the next module (a related one, or
+    the unrelated island) with ANOTHER interface, typically eagerly -- run more of the earlier modules with the gates
+    open (functions whose first call comes only now, callers that were generated while their direct callee had no code,
+    callers generated per basic block) -- ...
+    -> list of steps ('link', [modules], iface) | ('gen', func) | ('call', request).
+    The interpreter-only reference of a history is the same list with every link made 'interp' and no 'gen'.
+    API preconditions kept (asserted in the C code, not part of any property):
+      * bb is chosen only for a module no later-linked module refers to: a function that ran under lazy-BB keeps its
+        MIR in generator form (KNOWN_FINDINGS c16:gen-after-lazybb), so it must not be inlined afterwards;
+      * explicit MIR_gen only for functions without lref data, of a module linked lazily, or linked with the
+        interpreter interface while nothing ran since that link (programs with lref data) / at any time (others)."""
+    funcs = prog['funcs']
+    byname = {f['name']: f for f in funcs}
+    n = prog['nmodules']
+    isl = prog.get('island')
+    regular = [m for m in range(n) if m != isl]
+    order = list(regular)
+    if isl is not None:
+        order.insert(rng.randint(0, len(order)), isl)
+    # sometimes two adjacent regular modules are linked together
+    groups = []
+    for m in order:
+        if groups and m != isl and groups[-1][-1] != isl and rng.random() < 0.2:
+            groups[-1].append(m)
+        else:
+            groups.append([m])
+    users = {m: set() for m in range(n)}   # modules referring to functions of m
+    for f in funcs:
+        for u in f['uses']:
+            if byname[u]['module'] != f['module']:
+                users[byname[u]['module']].add(f['module'])
+    early = [i for i in ifaces if i != 'gen'] or ['gen']
+    # one link step (not the first when there are several) is eager; the steps before it are biased to the lazy kinds
+    e = rng.randint(1, len(groups) - 1) if len(groups) > 1 else 0
+    chosen = []
+    for gi, g in enumerate(groups):
+        if gi == e and 'gen' in ifaces:
+            i = 'gen'
+        elif gi < e:
+            i = rng.choice(early + [x for x in early if x != 'interp'])
+        else:
+            i = rng.choice(list(ifaces))
+        if i == 'bb':
+            later = set(m for g2 in groups[gi + 1:] for m in g2)
+            if any(users[m] & later for m in g):
+                i = 'lazy' if 'lazy' in ifaces else 'interp'
+        chosen.append(i)
+    free_mix = not any(f['lref'] for f in funcs)
+    steps = []
+    loaded = []
+    iface_of = {}
+    ran_since = {}   # module -> something was called since it was linked
+    for gi, g in enumerate(groups):
+        i = chosen[gi]
+        steps.append(('link', list(g), i))
+        for m in g:
+            iface_of[m] = i
+            ran_since[m] = False
+        loaded += g
+        last = gi == len(groups) - 1
+        ents = [x for x in prog['entries'] if x['module'] in loaded]
+        ii = [x for x in ents if x['kind'] == 'ii']
+        ncalls = rng.randint(2, 5) if last else rng.randint(0, 3)
+        for k in range(ncalls):
+            if explicit_gen and rng.random() < 0.2:
+                c = [f for f in funcs if f['module'] in loaded and not f['lref']
+                     and (iface_of[f['module']] == 'lazy'
+                          or (iface_of[f['module']] == 'interp' and (free_mix or not ran_since[f['module']])))]
+                if c:
+                    steps.append(('gen', rng.choice(c)['name']))
+            if not ents:
+                continue
+            x = rng.choice(ii) if ii and rng.random() < 0.75 else rng.choice(ents)
+            ng = max(1, min(6, x.get('ngate', 0)))
+            if gi < e:       # partial execution before the eager link: few gates open
+                gate = rng.choice([0, 0, 1 << rng.randrange(ng), 1 << rng.randrange(ng), rng.getrandbits(6)])
+            else:
+                gate = rng.choice([-1, -1, 63, rng.getrandbits(6), 1 << rng.randrange(ng), 0])
+            steps.append(('call', gate_call(rng, x, gate)))
+            for m in loaded:
+                ran_since[m] = True
+    # at the end every gate of every entry of the modules linked before the last step is opened once more
+    for x in prog['entries']:
+        if x['kind'] == 'ii' and rng.random() < 0.8:
+            steps.append(('call', gate_call(rng, x, -1)))
+    return steps
 
 
 if __name__ == '__main__':
